@@ -464,7 +464,10 @@ func (p *Packer) Unpack(r io.Reader, dst string) error {
 
 		// Handle symlinks, directories, non-regular files
 		if info.IsSymlink() {
-			if ok, err := p.validSymlink(dst, header.Name, header.Linkname); ok {
+			// The link is created at info.Path, i.e. with any leading slashes of
+			// the entry name dropped; its target has to be judged from that
+			// same position, not from the absolute path the raw name spells.
+			if ok, err := p.validSymlink(dst, strings.TrimLeft(header.Name, "/"), header.Linkname); ok {
 				// Create the symlink.
 				if err = os.Symlink(header.Linkname, info.Path); err != nil {
 					return fmt.Errorf("failed creating symlink (%q -> %q): %w",
